@@ -442,7 +442,17 @@ func typeIsError(v ssa.Value) bool {
 	if ci, ok := v.(*ssa.ChangeInterface); ok {
 		t = ci.X.Type()
 	}
-	return "error" == t.String()
+	if "error" == t.String() {
+		return true
+	}
+	/* A concrete error value (&fs.PathError{…}, a module error type): what
+	is left of it once the conversions to error and any are stripped. */
+	if ei, ok := types.Universe.Lookup("error").Type().Underlying().(*types.Interface); ok {
+		if _, isIface := t.Underlying().(*types.Interface); !isIface && types.Implements(t, ei) {
+			return true
+		}
+	}
+	return false
 }
 
 // checkC08Wiring follows the flag value: main → hsrv.New → sstls.Listen →
@@ -655,6 +665,33 @@ func errorSources(e ssa.Value, depth int) []errSource {
 			}
 		}
 	case *ssa.Alloc:
+		/* &fs.PathError{Op: …, Path: …, Err: e} and the like from the
+		standard library: they unwrap to their Err field. */
+		if n := namedOf(x.Type()); nil != n && nil != n.Obj().Pkg() && !strings.HasPrefix(n.Obj().Pkg().Path(), ModPath) {
+			if st, isSt := n.Underlying().(*types.Struct); isSt {
+				var out []errSource
+				for _, ref := range *x.Referrers() {
+					fa, isFA := ref.(*ssa.FieldAddr)
+					if !isFA || "Err" != st.Field(fa.Field).Name() {
+						continue
+					}
+					for _, r2 := range *fa.Referrers() {
+						if s2, isSt := r2.(*ssa.Store); isSt && s2.Addr == ssa.Value(fa) {
+							if u, isLd := stripConv(s2.Val, false).(*ssa.UnOp); isLd && token.MUL == u.Op {
+								if g, isG := u.X.(*ssa.Global); isG {
+									out = append(out, errSource{Name: g.Pkg.Pkg.Name() + "." + g.Name()})
+									continue
+								}
+							}
+							out = append(out, errorSources(s2.Val, depth+1)...)
+						}
+					}
+				}
+				if 0 != len(out) {
+					return out
+				}
+			}
+		}
 		/* &T{Op: …, Err: err}: a structured error of the module.  What its
 		Unwrap hands back is the cause it carries (what %w would have
 		wrapped); without an Unwrap it is an error of its own. */
